@@ -7,7 +7,12 @@ import (
 	"testing"
 
 	"github.com/ChainSafe/gossamer/dot/network"
+	"github.com/ChainSafe/gossamer/dot/types"
+	primitives "github.com/ChainSafe/gossamer/internal/primitives/consensus/grandpa"
+	"github.com/ChainSafe/gossamer/internal/primitives/core/hash"
 	"github.com/ChainSafe/gossamer/lib/common"
+	finality "github.com/ChainSafe/gossamer/pkg/finality-grandpa"
+	"github.com/ChainSafe/gossamer/pkg/scale"
 )
 
 func c33Hash(r *vhRng) common.Hash {
@@ -89,6 +94,48 @@ func c33GrandpaValid(r *vhRng) []byte {
 
 func c33NoScan([]byte) uint64 { return 0 }
 
+func c33H256(r *vhRng) hash.H256 {
+	h := c33Hash(r)
+	return hash.H256(h[:])
+}
+
+// c33WarpProofValid draws a warp sync proof of zero to two fragments without vote ancestries
+// (the only proofs the Go type can decode: its ancestries are a slice of interfaces).
+func c33WarpProofValid(r *vhRng) []byte {
+	p := NewWarpSyncProof()
+	for i, n := 0, r.Intn(3); i < n; i++ {
+		var f WarpSyncFragment
+		f.Header = types.Header{ParentHash: c33Hash(r), Number: uint(c33U64(r)), StateRoot: c33Hash(r),
+			ExtrinsicsRoot: c33Hash(r), Digest: types.NewDigest()}
+		for j, k := 0, r.Intn(3); j < k; j++ {
+			if r.Bool() {
+				_ = f.Header.Digest.Add(types.ConsensusDigest{ConsensusEngineID: types.GrandpaEngineID, Data: r.Bytes(r.Intn(9))})
+			} else {
+				_ = f.Header.Digest.Add(types.SealDigest{ConsensusEngineID: types.BabeEngineID, Data: r.Bytes(r.Intn(9))})
+			}
+		}
+		j := &f.Justification.Justification
+		j.Round = c33U64(r)
+		j.Commit.TargetHash = c33H256(r)
+		j.Commit.TargetNumber = c33U64(r)
+		for a, b := 0, r.Intn(3); a < b; a++ {
+			var sp finality.SignedPrecommit[hash.H256, uint64, primitives.AuthoritySignature, primitives.AuthorityID]
+			sp.Precommit.TargetHash = c33H256(r)
+			sp.Precommit.TargetNumber = c33U64(r)
+			copy(sp.Signature[:], r.Bytes(64))
+			copy(sp.ID[:], r.Bytes(32))
+			j.Commit.Precommits = append(j.Commit.Precommits, sp)
+		}
+		p.Proofs = append(p.Proofs, f)
+	}
+	p.IsFinished = r.Bool()
+	b, err := scale.Marshal(p)
+	if err != nil {
+		panic(err)
+	}
+	return b
+}
+
 var c33Kinds = []*c33Kind{
 	{name: "gmsg", // Service.decodeMessage (ConsensusMessage) then decodeMessage (GRANDPA message)
 		decode: func(in []byte) (string, func() ([]byte, error), error) {
@@ -126,7 +173,7 @@ var c33Kinds = []*c33Kind{
 			return idx + c33Dump(reflect.ValueOf(m).Elem()), reenc, nil
 		},
 		valid: c33GrandpaValid,
-		scan:  c33NoScan},
+		scan:  c33NoScan, typ: reflect.TypeOf(grandpaMessage{})},
 	{name: "ghs",
 		decode: func(in []byte) (string, func() ([]byte, error), error) {
 			h, err := (&Service{}).decodeHandshake(in)
@@ -138,9 +185,24 @@ var c33Kinds = []*c33Kind{
 		},
 		valid: func(r *vhRng) []byte { return []byte{byte(r.Pick(0, 1, 2, 4, 255))} },
 		scan:  c33NoScan},
+	{name: "wproof", // the decoding step of WarpSyncProofProvider.Verify
+		decode: func(in []byte) (string, func() ([]byte, error), error) {
+			var proof WarpSyncProof
+			if err := scale.Unmarshal(in, &proof); err != nil {
+				return "", nil, err
+			}
+			return c33Dump(reflect.ValueOf(proof)), func() ([]byte, error) { return scale.Marshal(proof) }, nil
+		},
+		valid: c33WarpProofValid,
+		scan: func(in []byte) uint64 {
+			var s uint64
+			c33Scan(reflect.TypeOf(WarpSyncProof{}), in, &s)
+			return s
+		},
+		typ: reflect.TypeOf(WarpSyncProof{})},
 }
 
-func c33GenGrandpa(r *vhRng) string { return c33Gen(r, c33Kinds) }
+func c33GenGrandpa(r *vhRng) string    { return c33Gen(r, c33Kinds) }
 func c33RunGrandpa(line string) string { return c33Run(c33Kinds, line) }
 
 func TestVerifC33(t *testing.T) { vhMain(t, c33GenGrandpa, c33RunGrandpa) }
